@@ -51,6 +51,7 @@ ASSUMPTIONS = [
 ]
 
 GC_EVERY = 1
+MAX_SHRINKS = 6
 # calls that reach Graph.remove(iterable): the only place of the alphabet's code paths that iterates a
 # set of IR objects (hash = address), so the *choice* of the node named in a rejection is not a
 # function of the history
@@ -139,14 +140,6 @@ def first_divergence(items, a, b, notes=None):
                     # first (and so which of its two messages is raised) depends on object addresses
                     notes["report_only_graph_remove_names_other_node"] = \
                         notes.get("report_only_graph_remove_names_other_node", 0) + 1
-                elif x[1] == y[1] and x[4] is not None and x[4] == y[4]:
-                    # same exception type from the same raise statement, another object named in the
-                    # message: Graph.remove & co. iterate a set of nodes, whose order depends on object
-                    # addresses, which differ between any two runs.  Not attributable to the journal.
-                    notes["report_only_other_object_named_by_same_raise_statement"] = \
-                        notes.get("report_only_other_object_named_by_same_raise_statement", 0) + 1
-                    notes.setdefault("examples", []).append((items[i], x[2][:400], y[2][:400]))
-                    pass
                 else:
                     return i, "result", (x, y)
         elif x != y:
@@ -200,6 +193,29 @@ def describe_divergence(items, div):
                 f"after step {i} {items[i]} the worlds differ although every call returned/raised the same: "
                 + "; ".join(t for _, t in fields[:5]))
     return ("diff:history-length", f"runs executed a different number of items: {x} vs {y}")
+
+
+ENTRY_FIELDS = ("ref", "details", "class_", "stack_trace", "object_id", "operation", "timestamp", "class_name")
+
+
+def _reaches(start, target_ids, depth=4) -> bool:
+    """Localisation only: does ``start`` reach one of the objects through strong references
+    (gc.get_referents, not descending into classes, modules and module dictionaries)?"""
+    import types
+    seen, frontier = set(), [start]
+    for _ in range(depth):
+        nxt = []
+        for o in frontier:
+            if id(o) in target_ids:
+                return True
+            if id(o) in seen or isinstance(o, (type, types.ModuleType, str, int, float, bytes)):
+                continue
+            seen.add(id(o))
+            if isinstance(o, dict) and "__builtins__" in o:
+                continue
+            nxt.extend(gc.get_referents(o))
+        frontier = nxt
+    return any(id(o) in target_ids for o in frontier)
 
 
 def liveness_refs(w, w_plain):
@@ -274,22 +290,21 @@ def judge(S, items, gc_check=True, confirm=True):
         alive = [(n, r, i) for n, r, i in refs if r() is not None]
         info["gc_objects_checked"] = len(refs)
         if alive:
+            alive_ids = {id(r()) for _, r, _ in alive}
             holders = set()
             for es in entries_kept:
-                for e in es:
-                    for f in ("ref", "details", "class_", "stack_trace", "object_id", "operation", "timestamp", "class_name"):
-                        val = getattr(e, f, None)
-                        for n, r, i in alive:
-                            if val is r():
-                                holders.add(f"{f} of a {e.operation}/{e.class_name} entry")
+                for e in es[:200]:
+                    for f in ENTRY_FIELDS:
+                        if f not in holders and _reaches(getattr(e, f, None), alive_ids):
+                            holders.add(f)
             names = sorted({n for n, _, _ in alive})
-            entries_kept = None
+            entries_kept = es = e = val = None  # the loop variables would keep the last entry alive
             gc.collect()
             if any(r() is not None for _, r, _ in alive):
                 raise RuntimeError(f"{names} objects survive although worlds and journal entries were dropped: harness leak")
-            viol.append((f"entries-keep-objects-alive|{'+'.join(names)}",
+            viol.append((f"entries-keep-objects-alive|via {'+'.join(sorted(holders)) or 'unlocated field'}",
                          f"{len(alive)} IR objects ({', '.join(names)}) survived gc.collect() after the world was dropped and died "
-                         f"only when the journal entries were dropped too; direct holders: {sorted(holders)[:4] or 'indirect'}"))
+                         f"only when the journal entries were dropped too; held through entry field(s): {sorted(holders) or 'not located'}"))
     # de-duplicate by signature, keep order
     seen, out = set(), []
     for sig, text in viol:
@@ -307,6 +322,11 @@ def report(ctx, S, items, sig, text):
         ctx.violation(sig, S.shrunk[sig][0], S.shrunk[sig][1])
         return
     want_gc = sig.startswith("entries-keep")
+    if len(S.shrunk) >= MAX_SHRINKS:  # a flood (a mutant): report, do not spend the budget on shrinking
+        msg = text + "\n  marked history (not shrunk):\n    " + "\n    ".join(str(it) for it in items[:80])
+        S.shrunk[sig] = (msg, {"items": items})
+        ctx.violation(sig, msg, {"items": items})
+        return
 
     def fails(sub):
         if not any(it[0] not in MARKERS for it in sub):
